@@ -162,6 +162,8 @@ def run_cvc5(smt2, timeout_s):
 def discharge(ob, timeout_ms, use_cvc5=True, seeds=(0, 7)):
     """unsat -> discharged; sat -> model; unknown after all back ends -> undischarged."""
     t0 = time.time()
+    if ob.name.endswith("/mustfail"):
+        timeout_ms, use_cvc5, seeds = min(timeout_ms, 2000), False, (0,)
     g = ob.goal
     if z3.is_true(g):
         ob.status, ob.backend = "discharged", "simplify"
@@ -208,8 +210,9 @@ def build_prestate(eng, c, cd, variant, mi, fn, is_method, is_init, is_static):
     st = State()
     for g, kind in eng.reg.ghosts.items():
         if kind.startswith("seq:"):
-            sort = eng.reg.sorts[kind[4:]]
-            st.ghost[g] = V("seq", z3.Const(g, z3.SeqSort(sort)), kind[4:])
+            st.ghost[g] = V("seq", z3.Const(g, z3.SeqSort(typespec.SORTS[kind[4:]])), kind[4:])
+        elif kind.startswith("map:"):
+            st.ghost[g] = make_glob(kind, g, st)
         else:
             st.ghost[g] = named(kind, g)
     for (file, name), spec in eng.reg.globs.items():
@@ -329,6 +332,10 @@ def prove_variant(reg, modules, file, qual, variant, timeout_ms=10000, prefix=""
                 d["model"] = {n: model_value(ob.model, v, eng.unit_pre) for n, v in eng.entry_names.items()}
                 d["model"]["$ghost"] = {g: model_value(ob.model, v, eng.unit_pre)
                                         for g, v in eng.unit_pre.ghost.items() if v.k != "seq"}
+                for g, v in eng.unit_pre.ghost.items():
+                    if v.k == "seq":
+                        n = ob.model.eval(z3.Length(v.t), model_completion=True).as_long()
+                        d["model"]["$ghost"][g] = [str(ob.model.eval(v.t[i], model_completion=True)) for i in range(min(n, 20))]
                 if eng.unit_pre.glob:
                     d["model"]["$glob"] = {g: model_value(ob.model, v, eng.unit_pre)
                                            for g, v in eng.unit_pre.glob.items()}
@@ -353,6 +360,9 @@ def exit_normal(eng, c, cd, s1, pre, names, selfv, rv, raise_conds, is_init, var
         eng.oblige(s1, f"xpost/{exc}-if", z3.Not(t), f"normal return although: {src}")
     n2 = dict(names)
     n2["result"] = rv
+    for ln, lv in s1.locals.items():
+        if not ln.startswith("$") and lv.k != "poison":
+            n2["local_" + ln] = lv
     for g, src in c.ghost_update.items():
         eng.set_path(g, eng.spec_eval(src, s1, n2, pre), selfv, s1)
     if not check_result_kind(eng, c, s1, rv, names, variant):
@@ -431,7 +441,10 @@ def frame_ghosts(eng, c, s1, pre, label, modifies, updates=()):
         if f"ghost.{g}" in modifies or f"ghost.{g}" in updates:
             continue
         v1 = s1.ghost[g]
-        t = (v0.t == v1.t) if v0.k == "seq" else same_value(v0, v1)
+        if v0.k == REF:
+            t = same_cell(pre.heap[v0.t], s1.heap[v1.t])
+        else:
+            t = (v0.t == v1.t) if v0.k == "seq" else same_value(v0, v1)
         eng.oblige(s1, f"{label}/ghost.{g}", t, f"ghost {g} unchanged")
     for g, v0 in pre.glob.items():
         if f"glob.{g}" in modifies:
@@ -458,8 +471,10 @@ def exit_raise(eng, c, cd, s1, pre, names, selfv, raised, raise_conds, is_init):
         if selfv is not None:
             frame_fields(eng, c, cd, s1, pre, selfv, f"xpost/{exc}/atomic", all_fields=True)
         frame_ghosts(eng, c, s1, pre, f"xpost/{exc}/atomic", [])
+    n2 = dict(names)
+    n2["raised"] = vstr(exc)
     for i, src in enumerate(c.on_raise):
-        eng.oblige(s1, f"xpost/{exc}/on_raise/{i + 1}", eng.spec_bool(src, s1, names, pre), src)
+        eng.oblige(s1, f"xpost/{exc}/on_raise/{i + 1}", eng.spec_bool(src, s1, n2, pre), src)
     if selfv is not None and c.public and not is_init and not c.atomic:
         for i, (src, t) in enumerate(eng.class_inv(selfv, s1)):
             eng.oblige(s1, f"xpost/{exc}/inv/{i + 1}", t, src)
